@@ -321,3 +321,44 @@ def member_name_inverse(ctx: Ctx) -> None:
                 else:
                     ctx.unk(R, f, lp, 'member names are listed without a recognised inverse of the writer\'s `+ extension`', key=key)
     ctx.require(n >= 1, 'a listing of archive member names in _StoreZip')
+
+
+# exporters that deliberately write without the container's own config, one reason each
+EXPORTER_CONFIG_EXCEPTIONS = {
+    'to_zip_pickle': 'pickle stores whole Frames; StoreConfig options do not apply (the source says so)',
+}
+
+
+def exporter_config_fallback(ctx: Ctx) -> None:
+    R = 'G.exporter-config-fallback'
+    ctx.rule(R, 'inferred convention, confirmed and frozen: every multi-table exporter of StoreClientMixin (to_zip_tsv, to_zip_csv, to_zip_parquet, to_xlsx, to_sqlite, to_hdf5) '
+             'writes with the config given by the caller or else with the container\'s own config — `config` reaches store.write after the fallback to `self._config` — so a '
+             'Bus built with write-side options (include_index, label_encoder, per-label entries) exports the way it reads; 6 of 7 exporters do, the seventh is the pickle '
+             'exporter (exception table)', floor=6)
+    prog = ctx.prog
+    k = prog.cls('StoreClientMixin')
+    n = 0
+    for mname, f in sorted(k.methods.items()):
+        if not mname.startswith('to_') or 'config' not in f.params:
+            continue
+        writes = [c for c in walk_local(f.node) if isinstance(c, ast.Call) and isinstance(c.func, ast.Attribute) and c.func.attr == 'write' and kwarg(c, 'config') is not None]
+        if not writes:
+            continue
+        n += 1
+        key = f'StoreClientMixin.{mname}'
+        if mname in EXPORTER_CONFIG_EXCEPTIONS:
+            ctx.ok(R, f, writes[0], f'exception table: {EXPORTER_CONFIG_EXCEPTIONS[mname]}', key=key)
+            continue
+        ex = roles.Expander(f.node)
+        got = set()
+        for w in writes:
+            got |= ex.expand(kwarg(w, 'config'))
+        sn = f.self_name()
+        falls_back = any(f'{sn}._config' in e for e in got) or any(
+            isinstance(a, ast.Assign) and norm(a.targets[0]) == 'config' and f'{sn}._config' in norm(a.value) for a in walk_local(f.node))
+        if falls_back:
+            ctx.ok(R, f, writes[0], 'store.write gets the caller\'s config or else self._config', key=key)
+        else:
+            ctx.bad(R, f, writes[0], f'`{norm(writes[0])[:60]}` is given `{sorted(got)[0][:40] if got else "?"}` without the fallback to `{sn}._config`: the container\'s own '
+                    'write options are dropped on export while reading still applies them', key=key)
+    ctx.require(n >= 6, 'exporters of StoreClientMixin')
